@@ -27,17 +27,17 @@ def reach_pool_{CLOUD}_{WT}(c: int, m: int, st: int, wc: int, s0: int, s1: int, 
 '''
 
 SELECT = '''
-def {FN}(c: int, m: int, st: int, pre_: bool, label_i: int, s0: int, s1: int, s2: int) -> bool:
+def {FN}(c: int, m: int, st: int, pre_: bool, label_i: int, s0: int, s1: int, s2: int{PRARGS}) -> bool:
     """
 {REQ_PRE}
     pre: 0 <= label_i <= 2
     pre: {SHARD}
     post: _
     """
-    return H.select_ok('{CLOUD}', {V}, c, m, st, pre_, label_i, {WTI}, (s0, s1, s2), exclude_known={EXK})
+    return H.select_ok('{CLOUD}', {V}, c, m, st, pre_, label_i, {WTI}, (s0, s1, s2), exclude_known={EXK}, prices={PRICES})
 
 
-def reach_{FN}(c: int, m: int, st: int, pre_: bool, label_i: int, s0: int, s1: int, s2: int) -> bool:
+def reach_{FN}(c: int, m: int, st: int, pre_: bool, label_i: int, s0: int, s1: int, s2: int{PRARGS}) -> bool:
     """
 {REQ_PRE}
     pre: 0 <= label_i <= 2
@@ -45,7 +45,7 @@ def reach_{FN}(c: int, m: int, st: int, pre_: bool, label_i: int, s0: int, s1: i
     post: _
     """
     # reachability twin (assertion replaced by false): must be REFUTED, i.e. the end of the check is reached
-    H.select_ok('{CLOUD}', {V}, c, m, st, pre_, label_i, {WTI}, (s0, s1, s2), exclude_known={EXK})
+    H.select_ok('{CLOUD}', {V}, c, m, st, pre_, label_i, {WTI}, (s0, s1, s2), exclude_known={EXK}, prices={PRICES})
     return {TWIN}
 '''
 
@@ -73,21 +73,14 @@ SMAX = 1 << 47          # requested storage bytes (128 TiB; the clouds' limits a
 SLK = 1 << 20           # slack of the over-approximating mdiv cut
 
 
-C_CUTS = [0, 1001, 16001, CMAX]
-M_CUTS = [0, 1 << 33, MMAX]
+NPRICE = 12             # symbolic prices pr0..pr11, one per pool of the configuration (price stub)
 
 
 def select_shards(wti, quick):
-    """wt_i = 0 (price path over every matching pool) is sharded by preemptible x cores range x memory range."""
+    """wt_i = 0 (price path over every matching pool) is sharded by preemptible."""
     if wti != 0:
         return [('', 'True')]
-    out = []
-    for pre in (True, False):
-        for i in range(len(C_CUTS) - 1):
-            for j in range(len(M_CUTS) - 1):
-                out.append((f'_{"p" if pre else "n"}{i}{j}',
-                            f'pre_ == {pre} and {C_CUTS[i]} <= c < {C_CUTS[i + 1]} and {M_CUTS[j]} <= m < {M_CUTS[j + 1]}'))
-    return out
+    return [('_p', 'pre_ == True'), ('_n', 'pre_ == False')]
 
 
 def source(quick, variants, H, select0=True):
@@ -107,12 +100,18 @@ def source(quick, variants, H, select0=True):
                     # un-sharded conditions: the twin demands that some request is placed; shards: that the end is reached
                     twin = ('False' if suffix else
                             f"H.select_result('{cloud}', {v}, c, m, st, pre_, label_i, {wti}, (s0, s1, s2)) is None")
-                    out.append(SELECT.format(FN=fn, CLOUD=cloud, V=v, WTI=wti, REQ_PRE=req, EXK=(v == 3), SHARD=shard, TWIN=twin))
+                    stub = wti == 0 and v != 3      # variant 3 (known class excluded) keeps the REAL price computation
+                    prargs = ''.join(f', pr{i}: int' for i in range(NPRICE)) if stub else ''
+                    prices = '(' + ', '.join(f'pr{i}' for i in range(NPRICE)) + ')' if stub else 'None'
+                    rq = req + ('\n    pre: ' + ' and '.join(f'0 <= pr{i} < 1000' for i in range(NPRICE)) if stub else '')
+                    out.append(SELECT.format(FN=fn, CLOUD=cloud, V=v, WTI=wti, REQ_PRE=rq, EXK=(v == 3), SHARD=shard, TWIN=twin,
+                                             PRARGS=prargs, PRICES=prices))
                     names.append(('select', fn, dict(cloud=cloud, variant=v, wt_i=wti)))
                 if v == 3 and wti == 0:
                     # the same condition WITHOUT excluding the known class: expected to be refuted (known finding)
                     fn = f'selectK_{cloud}_{v}_{wti}'
-                    out.append(SELECT.format(FN=fn, CLOUD=cloud, V=v, WTI=wti, REQ_PRE=req, EXK=False, SHARD='True', TWIN='False'))
+                    out.append(SELECT.format(FN=fn, CLOUD=cloud, V=v, WTI=wti, REQ_PRE=req, EXK=False, SHARD='True', TWIN='False',
+                                             PRARGS='', PRICES='None'))
                     names.append(('selectK', fn, dict(cloud=cloud, variant=v, wt_i=wti)))
         out.append(PRIVATE.format(CLOUD=cloud, NMT=len(H.machine_types(cloud)), SMAX=SMAX))
         names.append(('private', f'private_{cloud}', dict(cloud=cloud)))
